@@ -244,40 +244,6 @@ fn c06_nopanic_pre_unoccupied() {
 }
 
 // @verif property=C06 tier=quick mem=10 timeout=2400
-// @encodes peppi::io::slippi::de::parse_event Frame Pre arm: event addressed to port number 4 (out of range)
-// @symbolic 700 open frame's id and payload; frame id and payload of the event
-// @bound 3.16 state, one occupied port (P2, not Ice Climbers), one open frame, one event; port byte 4 and follower flag false are concrete (a symbolic port index turns every column access into a symbolic pointer: > 19 min)
-// @assume the port's column set is a typed stack object
-// @stub alloc::fmt::format = returns an empty String
-// @stub std::hash::RandomState::new = fixed keys
-// @cbmc --max-field-sensitivity-array-size 512
-#[kani::proof]
-#[kani::unwind(8)]
-#[kani::stub(alloc::fmt::format, format_stub)]
-#[kani::stub(std::hash::RandomState::new, random_state_stub)]
-fn c06_nopanic_pre_port4() {
-	port_event(0x37, false, true, 4, false);
-	kani::cover!(true, "returned");
-}
-
-// @verif property=C06 tier=quick mem=10 timeout=2400
-// @encodes peppi::io::slippi::de::parse_event Frame Pre arm: event addressed to port number 255 (out of range), follower flag set
-// @symbolic 700 open frame's id and payload; frame id and payload of the event
-// @bound 3.16 state, one occupied port (P2, not Ice Climbers), one open frame, one event; port byte 255 and follower flag true are concrete (a symbolic port index turns every column access into a symbolic pointer: > 19 min)
-// @assume the port's column set is a typed stack object
-// @stub alloc::fmt::format = returns an empty String
-// @stub std::hash::RandomState::new = fixed keys
-// @cbmc --max-field-sensitivity-array-size 512
-#[kani::proof]
-#[kani::unwind(8)]
-#[kani::stub(alloc::fmt::format, format_stub)]
-#[kani::stub(std::hash::RandomState::new, random_state_stub)]
-fn c06_nopanic_pre_port255() {
-	port_event(0x37, false, true, 255, true);
-	kani::cover!(true, "returned");
-}
-
-// @verif property=C06 tier=quick mem=10 timeout=2400
 // @encodes peppi::io::slippi::de::parse_event Frame Post arm: event addressed to the occupied port, arbitrary frame id
 // @symbolic 860 open frame's id and payload; frame id and payload of the event
 // @bound 3.16 state, one occupied port (P2, not Ice Climbers), one open frame, one event; port byte 1 and follower flag false are concrete (a symbolic port index turns every column access into a symbolic pointer: > 19 min)
@@ -325,40 +291,6 @@ fn c06_nopanic_post_follower_non_ics() {
 #[kani::stub(std::hash::RandomState::new, random_state_stub)]
 fn c06_nopanic_post_unoccupied() {
 	port_event(0x38, false, true, 0, false);
-	kani::cover!(true, "returned");
-}
-
-// @verif property=C06 tier=quick mem=10 timeout=2400
-// @encodes peppi::io::slippi::de::parse_event Frame Post arm: event addressed to port number 4 (out of range)
-// @symbolic 860 open frame's id and payload; frame id and payload of the event
-// @bound 3.16 state, one occupied port (P2, not Ice Climbers), one open frame, one event; port byte 4 and follower flag false are concrete (a symbolic port index turns every column access into a symbolic pointer: > 19 min)
-// @assume the port's column set is a typed stack object
-// @stub alloc::fmt::format = returns an empty String
-// @stub std::hash::RandomState::new = fixed keys
-// @cbmc --max-field-sensitivity-array-size 512
-#[kani::proof]
-#[kani::unwind(8)]
-#[kani::stub(alloc::fmt::format, format_stub)]
-#[kani::stub(std::hash::RandomState::new, random_state_stub)]
-fn c06_nopanic_post_port4() {
-	port_event(0x38, false, true, 4, false);
-	kani::cover!(true, "returned");
-}
-
-// @verif property=C06 tier=thorough mem=10 timeout=2400
-// @encodes peppi::io::slippi::de::parse_event Frame Post arm: event addressed to port number 255 (out of range), follower flag set
-// @symbolic 860 open frame's id and payload; frame id and payload of the event
-// @bound 3.16 state, one occupied port (P2, not Ice Climbers), one open frame, one event; port byte 255 and follower flag true are concrete (a symbolic port index turns every column access into a symbolic pointer: > 19 min)
-// @assume the port's column set is a typed stack object
-// @stub alloc::fmt::format = returns an empty String
-// @stub std::hash::RandomState::new = fixed keys
-// @cbmc --max-field-sensitivity-array-size 512
-#[kani::proof]
-#[kani::unwind(8)]
-#[kani::stub(alloc::fmt::format, format_stub)]
-#[kani::stub(std::hash::RandomState::new, random_state_stub)]
-fn c06_nopanic_post_port255() {
-	port_event(0x38, false, true, 255, true);
 	kani::cover!(true, "returned");
 }
 
@@ -581,4 +513,41 @@ fn c04_two_ports_r1_first_reporter_returns() {
 	assert!(p1.leader.post.character.values()[1] == post_b1[7]);
 	assert!(p2.leader.post.character.values()[0] == post_a2[7]);
 	kani::cover!(true, "reached");
+}
+
+// @verif property=C06,C04 tier=quick mem=12 timeout=1800
+// @encodes peppi::io::slippi::de::ParseState::character_mut (which column set a Frame Pre / Frame Post event is routed to) and expect_frame_id
+// @symbolic 73 port byte (all 256 values), follower flag, frame id of the event and of the open frame
+// @bound one-port state (P2, not Ice Climbers), one open frame
+// @assume unit level: on the unrepaired tree port bytes 4 and 255 were driven through parse_event (replays/C06/c06_nopanic_{pre,post}_port{4,255}.rs: index out of bounds); on the repaired tree those harnesses do not finish (40 min), so the routing check is exercised directly for every port byte
+// @stub alloc::fmt::format = returns an empty String
+// @stub std::hash::RandomState::new = fixed keys
+// @cbmc --max-field-sensitivity-array-size 512
+#[kani::proof]
+#[kani::unwind(8)]
+#[kani::stub(alloc::fmt::format, format_stub)]
+#[kani::stub(std::hash::RandomState::new, random_state_stub)]
+fn c06_event_routing_total() {
+	let v = Version(3, 16, 0);
+	let mut store = new_port(v, Port::P2, false);
+	let mut state = one_port_state(v, &mut store, Port::P2);
+	let a: i32 = kani::any();
+	let mut s_a: [u8; 13] = kani::any();
+	s_a[0] = 0x3A;
+	put_id(&mut s_a, a);
+	step(&mut state, &s_a, 0x3A);
+	let port: u8 = kani::any();
+	let follower: bool = kani::any();
+	let r = state.verif_character_mut(port, follower);
+	// routed iff the event names the occupied port and, for a follower, the port holds Ice Climbers
+	assert!(r.is_ok() == (port == 1 && !follower));
+	let id: i32 = kani::any();
+	let r2 = state.verif_expect_frame_id(id);
+	assert!(r2.is_ok() == (id == a));
+	kani::cover!(port >= 4, "port number out of range");
+	kani::cover!(port == 0, "unoccupied port");
+	kani::cover!(port == 1 && follower, "follower flag on a non-ICs port");
+	kani::cover!(r.is_ok() && r2.is_ok(), "well addressed");
+	forget(r);
+	forget(r2);
 }
